@@ -1,0 +1,46 @@
+//----------------------------------*-C++-*----------------------------------//
+// Copyright 2024 UT-Battelle, LLC, and other Celeritas developers.
+// See the top-level COPYRIGHT file for details.
+// SPDX-License-Identifier: (Apache-2.0 OR MIT)
+//---------------------------------------------------------------------------//
+//! \file corecel/sys/VerifHooks.hh
+//! \brief Verification seams (compiled only with -DCELERITAS_VERIF).
+//---------------------------------------------------------------------------//
+#pragma once
+
+#ifdef CELERITAS_VERIF
+namespace celeritas
+{
+namespace verif
+{
+//---------------------------------------------------------------------------//
+//! Called at hooked synchronisation-relevant points (null: no-op)
+using YieldFn = void (*)(char const* tag);
+//! Filter applied to every 32-bit word produced by the core RNG (null: no-op)
+using RngFn = unsigned int (*)(unsigned int word);
+
+inline YieldFn g_yield = nullptr;
+inline RngFn g_rng = nullptr;
+
+inline void yield(char const* tag)
+{
+    if (g_yield)
+    {
+        g_yield(tag);
+    }
+}
+
+inline unsigned int rng_word(unsigned int word)
+{
+    return g_rng ? g_rng(word) : word;
+}
+//---------------------------------------------------------------------------//
+}  // namespace verif
+}  // namespace celeritas
+#    define CELER_VERIF_YIELD(TAG) ::celeritas::verif::yield(TAG)
+#else
+#    define CELER_VERIF_YIELD(TAG) \
+        do                         \
+        {                          \
+        } while (0)
+#endif
